@@ -695,3 +695,46 @@ def bits(x: Any) -> Any:
     if hasattr(x, '_aa'):
         return (type(x).__name__,) + tuple(bits(getattr(x, '_' + a + b)) for a in 'abc' for b in 'abc')
     raise TypeError(type(x))
+
+
+# ------------------------------------------------------------------------------------------------ export read tracing
+_TRACE_LOG: set[tuple[str, str]] = set()
+_TRACED: dict[type, type] = {}
+
+
+def _traced_class(cls: type) -> type:
+    """A layout-compatible subclass whose attribute reads are logged (used only while one export runs)."""
+    t = _TRACED.get(cls)
+    if t is None:
+        name = cls.__name__
+
+        def __getattribute__(self, attr, _name=name):  # noqa: N807
+            _TRACE_LOG.add((_name, attr))
+            return object.__getattribute__(self, attr)
+        t = type(cls.__name__, (cls,), {'__slots__': (), '__getattribute__': __getattribute__, '__del__': lambda self: None})
+        _TRACED[cls] = t
+    return t
+
+
+def traced_export_reads(obj: Any) -> set[tuple[str, str]]:
+    """Run the export of `obj` with every reachable map object (Entity, Solid, Side, DispVertex, ...) switched to a
+    logging subclass; returns the (class name, attribute) pairs really read.  Classes are restored afterwards."""
+    classes = (Entity, Solid, Side, DispVertex, UVAxis, Output, VisGroup, EntityGroup, Camera, Cordon, EntityFixup,
+               FixupValue, Keyvalues)
+    swapped: list[tuple[Any, type]] = []
+    for o, _path in walk(obj).values():
+        if type(o) in classes:
+            try:
+                cls = type(o)
+                o.__class__ = _traced_class(cls)
+                swapped.append((o, cls))
+            except TypeError:
+                pass
+    _TRACE_LOG.clear()
+    try:
+        observe(obj)
+        return set(_TRACE_LOG)
+    finally:
+        for o, cls in swapped:
+            object.__setattr__(o, '__class__', cls) if False else setattr(o, '__class__', cls)
+        _TRACE_LOG.clear()
